@@ -44,6 +44,59 @@ fn main() {
       let mut tape = sv::engine::Tape::new(data);
       println!("{}", serde_json::to_string_pretty(&prop.generate(&mut tape, tier)).unwrap());
     }
+    "calibrate" => {
+      // run tests.AllTests with the reference interpreter and compare with tests/snapshot.txt
+      let mut mods = sv::model::front::repo_test_modules();
+      for m in mods.iter_mut() {
+        // the benchmark recurses 20 000 000 levels deep (the compiler turns it into a loop); the
+        // interpreter has no tail calls, so the calibration uses a smaller n with the same property
+        m.1 = m.1.replace("let bigNum = 20000000;", "let bigNum = 6014;");
+      }
+      let prog = sv::model::front::load_program(&mods).expect("parse");
+      let entry = prog.user.iter().copied().find(|m| m.pretty_print(&prog.heap) == "tests.AllTests").expect("AllTests");
+      let run = sv::model::interp::run_program_with_depth(&prog.heap, &prog.modules, entry, 2_000_000_000, 200_000);
+      let expected = std::fs::read_to_string(sv::engine::repo_root().join("tests/snapshot.txt")).unwrap();
+      let exp: Vec<&str> = expected.lines().collect();
+      println!("end = {:?}, steps = {}, lines = {} (snapshot has {})", run.end, run.steps, run.lines.len(), exp.len());
+      let got: Vec<String> = run.lines.iter().flat_map(|l| l.split('\n').map(|x| x.to_string()).collect::<Vec<_>>()).collect();
+      let mut shown = 0;
+      for i in 0..got.len().max(exp.len()) {
+        let g = got.get(i).map(|s| s.as_str());
+        let e = exp.get(i).copied();
+        if g != e {
+          println!("line {}: got {:?} expected {:?}", i + 1, g, e);
+          shown += 1;
+          if shown > 10 {
+            break;
+          }
+        }
+      }
+      if shown == 0 {
+        println!("CALIBRATION OK");
+      }
+    }
+    "e2e" => {
+      // compile tests.AllTests with the real pipeline, run both artefacts, compare with the snapshot
+      let mods = sv::model::front::repo_test_modules();
+      let entry = vec!["tests".to_string(), "AllTests".to_string()];
+      let t0 = std::time::Instant::now();
+      match sv::model::exec::compile(&mods, &entry) {
+        sv::model::exec::CompileOutcome::Ok(c) => {
+          println!("compiled in {:?}: wasm {} bytes, ts {} bytes, main {}", t0.elapsed(), c.wasm.len(), c.ts_code.len(), c.main);
+          println!("wasm validation: {:?}", sv::model::exec::validate_wasm(&c.wasm));
+          let mut node = sv::engine::node::Node::spawn().expect("node");
+          let (w, t) = sv::model::exec::run_both(&mut node, &c, std::time::Duration::from_secs(120));
+          let expected = std::fs::read_to_string(sv::engine::repo_root().join("tests/snapshot.txt")).unwrap();
+          let exp: Vec<String> = expected.lines().map(|s| s.to_string()).collect();
+          for (name, r) in [("wasm", &w), ("ts", &t)] {
+            let got: Vec<String> = r.lines.iter().flat_map(|l| l.split('\n').map(|x| x.to_string()).collect::<Vec<_>>()).collect();
+            println!("{name}: end={} msg={:?} lines={} equal_to_snapshot={}", r.end, r.message, got.len(), got == exp);
+          }
+        }
+        sv::model::exec::CompileOutcome::Rejected(m) => println!("rejected: {}", &m[..m.len().min(2000)]),
+        sv::model::exec::CompileOutcome::Panicked(e) => println!("panicked: {:?}", e),
+      }
+    }
     "list" => {
       for p in sv::props::all() {
         println!("{}", p.id());
